@@ -155,6 +155,43 @@ def explainedP (f : Font) (fu : Nat → Name) (out : List Name) : Bool :=
     f.gsub.any (subExplains out n i nm) ||
     isOrn nm
 
+/-- glyph `o` had its name before the GSUB pass: glyph 0, its existing name, or the cmap name of a
+code mapped to it (a name once in `used` is never handed out again, so this is exact) -/
+def namedEarly (f : Font) (fu : Nat → Name) (out : List Name) (o : Nat) : Bool :=
+  let nm := out.getD o []
+  o == 0 || (nm ≠ [] && nm == f.outl.initNames.getD o []) ||
+  (match f.cmap with
+    | none => false
+    | some c => (List.range' c.lo (c.hi + 1 - c.lo)).any fun code =>
+        c.lookup code == o && fu code == nm && nm ≠ [])
+
+/-- is there a rule of `s` that derives glyph `i` from glyphs that all pass `early`? -/
+def subDerives (early : Nat → Bool) (n i : Nat) : Sub → Bool
+  | .single1 cov d => cov.any fun o => (o + d) % 65536 == i && decide (o < n) && early o
+  | .single2 cov subst => cov.any fun p => subst[p.2]? == some i && decide (p.1 < n) && early p.1
+  | .alt cov alts => cov.any fun p => (alts.getD p.2 []).contains i && decide (p.1 < n) && early p.1
+  | .lig cov repl => cov.any fun p =>
+      decide (p.1 < n) && early p.1 &&
+      (repl.getD p.2 []).any fun l => l.2 == i && l.1.all fun g => decide (g < n) && early g
+  | .other => false
+
+/-- "inferred before placeholder": a glyph with a numbered placeholder (not its existing name) is
+not the target of any GSUB 1.1/1.2/3.1/4.1 rule whose source glyphs all had names before the
+GSUB pass -/
+def inferredP (f : Font) (fu : Nat → Name) (out : List Name) : Bool :=
+  let n := f.outl.numGlyphs
+  let early := fun o => namedEarly f fu out o
+  (List.range n).all fun i =>
+    !(isOrn (out.getD i []) && !early i) || !(f.gsub.any (subDerives early n i))
+
+/-- a legal glyph name (Adobe glyph list specification: at most 31 characters from
+`A-Z a-z 0-9 . _`, not starting with a digit or a period; `.notdef` is the exception) -/
+def safeName (nm : Name) : Bool :=
+  nm == notdef ||
+  (decide (1 ≤ nm.length) && decide (nm.length ≤ 31) &&
+   nm.all (fun c => c.isAlphanum || c == '.' || c == '_') &&
+   !(nm.head?.any fun c => c.isDigit || c == '.'))
+
 def prefixes : List String := ["gnames."]
 
 def handle (op : String) (fs : List (String × String)) : String :=
@@ -195,6 +232,16 @@ def handle (op : String) (fs : List (String × String)) : String :=
   else if op == "gnames.readback" then
     -- direct check run by the harness on the real code (C20_install, C20_stable_again, C20_unique)
     "ok"
+  else if op == "gnames.cffstable" then
+    -- direct check run by the harness on the real MakeSimple (valid, unique, stable)
+    "ok"
+  else if op == "gnames.inferred" then
+    match parseFont fs, (getField fs "fu").bind parseNameTab, (getField fs "on").bind String.toNat? with
+    | some f, some fu, some on =>
+      match (getField fs "out").bind (parseNames on) with
+      | some out => let tab := fu.toArray; yn (inferredP f (nameTabFn tab) out)
+      | none => "bad-case"
+    | _, _, _ => "bad-case"
   else if op == "gnames.explained" then
     match parseFont fs, (getField fs "fu").bind parseNameTab, (getField fs "on").bind String.toNat? with
     | some f, some fu, some on =>
@@ -223,6 +270,7 @@ def handle (op : String) (fs : List (String × String)) : String :=
         | some n => yn (completeP n out)
         | none => "bad-case"
       else if op == "gnames.unique" then yn (uniqueP out)
+      else if op == "gnames.safe" then yn (out.all safeName)
       else if op == "gnames.notdef" then yn (notdefP out)
       else if op == "gnames.kept" then
         match (getField fs "in").bind String.toNat? with
